@@ -990,7 +990,8 @@ def _relaxed_end(paths, s):
     if ic - cc > 1 or psi_1e == 0:
         return ir, cc
     # Only the corner is marked: the smallest of its two neighbours was chosen (last row on ties)
-    if paths[rr, ic] < paths[ir, cc]:
+    # (row 0 and column 0 are the border, not cells of the matrix)
+    if cc == 0 or (rr > 0 and paths[rr, ic] < paths[ir, cc]):
         return rr, ic
     return ir, cc
 
